@@ -224,6 +224,9 @@ func (bq *InMemoryBuildQueue) VerifCheckInvariants() (VerifCounts, []string) {
 				if w.currentTask != nil {
 					bad("parked worker %s has a task assigned", w.workerKey)
 				}
+				if w.isDrained(scq, w.workerKey.getWorkerID()) {
+					bad("parked worker %s waits for work although it is drained or terminating", w.workerKey)
+				}
 			}
 			execMultiset[i] = map[*worker]int{}
 			for w, n := range i.executingWorkers {
